@@ -70,21 +70,25 @@ PROPERTIES = {
     "C05": {
         "claim": "Proof, for the RTP/RTCP wire parsers under contract (rtp.py: unpack_remb_fci, unpack_header_extensions, "
                  "unpack_packets_lost, RtcpReceiverInfo.parse, RtcpSenderInfo.parse, RtcpPsfbPacket.parse, RtcpByePacket.parse, "
-                 "is_rtcp, RtcpSdesPacket.parse, RtcpRtpfbPacket.parse (NACK); rtcsctptransport.py: "
+                 "is_rtcp, RtcpSdesPacket.parse, RtcpRtpfbPacket.parse (NACK), RtcpRrPacket.parse, RtcpSrPacket.parse, the compound "
+                 "dispatcher RtcpPacket.parse, HeaderExtensionsMap.get (F-4 found and fixed: a fixed-size header extension of "
+                 "the wrong length raised struct.error); rtcsctptransport.py: "
                  "parse_packet (every chunk class of the dispatch table, checksum gate), decode_params, the "
                  "DATA/SACK/FORWARD-TSN/INIT/SHUTDOWN/params chunk constructors, the three RFC 6525 "
                  "parameter parsers; codecs/vpx.py: VpxPayloadDescriptor.parse; codecs/h264.py: H264PayloadDescriptor.parse; "
                  "rtcrtpreceiver.py: NackGenerator.add), that for every byte string they return or "
                  "raise ValueError only (no struct.error/IndexError/TypeError) and every loop terminates (decreases "
-                 "clauses). Reduced: the dispatch layer and the remaining parsers are not under contract.",
-        "note": "Only the listed parser functions are decided; the rest of the receive path (RtpPacket.parse, "
-                "RtcpPacket.parse dispatch, RR/SR parsers, transports, _receive_chunk) is outside this check. parse_packet's "
+                 "clauses); _receive_forward_tsn_chunk raises nothing. Reduced: RtpPacket.parse itself, the SCTP chunk dispatch "
+                 "(_handle_data, _receive_chunk) and the transports are not under contract.",
+        "note": "Only the listed parser functions are decided; the rest of the receive path (RtpPacket.parse, transports, "
+                "_receive_chunk) is outside this check. parse_packet's "
                 "call of a class from the chunk dispatch table is discharged modularly: every class in the table has a "
                 "constructor contract whose only exceptional exit is ValueError. "
                 "Trusted: pyvc engine and prelude axioms for struct/bytes.",
         "design_ref": "DESIGN.md 4.5, 9",
         "trusted_base": COMMON,
-        "not_decided": ["RtpPacket.parse / RtcpPacket.parse dispatch, RR/SR parsers", "_handle_data / _receive_chunk dispatch",
+        "not_decided": ["RtpPacket.parse (its header-extension decoding, HeaderExtensionsMap.get, is decided)",
+                        "_handle_data / _receive_chunk dispatch",
                         "memory/time proportionality beyond loop variants bounded by the input length", "transport stays up afterwards"],
     },
     "C06": {
